@@ -3,7 +3,7 @@
 #   demo passes without the patch, fails with it, and the unedited suite passes with the patch.
 # usage: tools/confirm_seed.sh <ID> <N>
 set -u
-ID="$1"; N="$2"; WT="/tmp/seed/$ID"; S="$WT/_seed"
+ID="$1"; N="$2"; WT="${SEED_BASE:-/tmp/seed}/$ID"; S="$WT/_seed"
 cd "$WT" || exit 2
 git checkout -q -- . ; git clean -fdq -e _seed -e target
 git apply "$S/demo$N.diff" || { echo "CONFIRM $ID/$N: demo does not apply"; exit 1; }
